@@ -14,6 +14,9 @@ import (
 var ErrInjected = errors.New("simio: injected reader failure")
 var ErrWrapped = fmt.Errorf("simio: transport: %w", ErrInjected)
 
+// ErrWrapsEOF is a transport failure that wraps io.EOF without being io.EOF.
+var ErrWrapsEOF = fmt.Errorf("simio: connection lost: %w", io.EOF)
+
 // Event is one step of a reader script.
 type Event struct {
 	// N is the maximum number of data bytes this Read may return (further
